@@ -13,6 +13,8 @@ type(other).__name__[, mod]) to the module-level LOG.
 """
 from hypothesis import strategies as st
 
+from .uni import chance, pick, sample
+
 OPS = {"add": "+", "sub": "-", "mul": "*", "matmul": "@", "truediv": "/", "floordiv": "//", "mod": "%",
        "pow": "**", "lshift": "<<", "rshift": ">>", "and": "&", "or": "|", "xor": "^", "divmod": None}
 OPNAMES = list(OPS)
@@ -79,22 +81,22 @@ def roles_for(op):
 def method_cfg(draw, op, p_present=0.5, bodies=BODIES):
     cfg = {}
     for role in roles_for(op):
-        if draw(st.sampled_from(range(1000))) < int(p_present * 1000):   # NB st.floats() is not uniform
-            cfg[role] = draw(st.sampled_from(bodies)) if role != "iop" else draw(st.sampled_from(("tag", "tag", "ni")))
+        if chance(draw, p_present):
+            cfg[role] = pick(draw, bodies) if role != "iop" else pick(draw, ("tag", "tag", "ni"))
     return cfg
 
 
 @st.composite
 def arith_group(draw, nops=3):
-    ops = draw(st.lists(st.sampled_from(OPNAMES), min_size=nops, max_size=nops, unique=True))
-    hier = draw(st.sampled_from(HIERS))
+    ops = sample(draw, OPNAMES, nops)
+    hier = pick(draw, HIERS)
     g = {"kind": "arith", "id": "0", "ops": ops, "hier": hier, "B": {}, "D": {}, "O": {}}
     for op in ops:
         g["B"][op] = draw(method_cfg(op))
         g["O"][op] = draw(method_cfg(op, 0.6))
         if hier in ("covr", "povr"):
-            role = draw(st.sampled_from(roles_for(op)))
-            g["D"][op] = {role: draw(st.sampled_from(BODIES))}
+            role = pick(draw, roles_for(op))
+            g["D"][op] = {role: pick(draw, BODIES)}
         else:
             g["D"][op] = {}
     return g
@@ -119,20 +121,20 @@ def enum_arith_configs():
 
 @st.composite
 def cmp_group(draw):
-    to = draw(st.booleans())
-    hier = draw(st.sampled_from(HIERS))
-    size = draw(st.sampled_from([0, 1, 1, 1, 2, 2, 2, 3, 4, 6]))
-    names = draw(st.lists(st.sampled_from(CMPNAMES), min_size=size, max_size=size, unique=True))
+    to = chance(draw, 0.5)
+    hier = pick(draw, HIERS)
+    size = pick(draw, [0, 1, 1, 1, 2, 2, 2, 3, 4, 6])
+    names = sample(draw, CMPNAMES, size)
     if to and not any(n in names for n in ("__lt__", "__le__", "__gt__", "__ge__")):
-        names.append(draw(st.sampled_from(["__lt__", "__le__", "__gt__", "__ge__"])))
+        names.append(pick(draw, ["__lt__", "__le__", "__gt__", "__ge__"]))
     bodies = ("val", "val", "ni", "nif") if to else ("tag", "val", "ni", "nif")
     g = {"kind": "cmp", "id": "0", "to": to, "hier": hier,
-         "B": {n: draw(st.sampled_from(bodies)) for n in sorted(names)}, "D": {}, "O": {},
-         "hashB": draw(st.sampled_from(range(4))) == 0}
+         "B": {n: pick(draw, bodies) for n in sorted(names)}, "D": {}, "O": {},
+         "hashB": chance(draw, 0.25)}
     if hier in ("covr", "povr"):
-        g["D"] = {draw(st.sampled_from(CMPNAMES)): draw(st.sampled_from(bodies))}
-    onames = draw(st.lists(st.sampled_from(CMPNAMES), min_size=0, max_size=3, unique=True))
-    g["O"] = {n: draw(st.sampled_from(("tag", "val", "ni"))) for n in sorted(onames)}
+        g["D"] = {pick(draw, CMPNAMES): pick(draw, bodies)}
+    onames = sample(draw, CMPNAMES, pick(draw, [0, 1, 2, 3]))
+    g["O"] = {n: pick(draw, ("tag", "val", "ni")) for n in sorted(onames)}
     return g
 
 
